@@ -20,6 +20,9 @@ MULTI = [
     '&& final(results)@ == old(results)@ + globbed(' + L1 + ', ' + N0 + ' + 1, sf.len() as int) }))',
     # the status handed on is that of the last command substitution of the initial expansion
     'r matches Ok(st) ==> (' + L1 + '[' + N0 + '] matches Ev::Expanded { word: w, will_split, phrase, ifs_after, status } && st == status)',
+    # (the same, as a sum: what is delivered is what the pathname expansions recorded since the call answered; this word is the only one expanded)
+    'r is Ok ==> final(results)@ =~= old(results)@ + globbed(' + L1 + ', ' + N0 + ', ' + L1 + '.len() - ' + N0 + ')',
+    'forall|k: int| (' + N0 + ') < k < ' + L1 + '.len() ==> !(#[trigger] ' + L1 + '[k] is Expanded)',
     # an interrupted pathname expansion ends the expansion there: what was delivered before stays, nothing follows
     '(r is Err && ' + L1 + '.len() > ' + N0 + ' + 1) ==> (' + L1 + '[' + N0 + '] matches Ev::Expanded { word: w, will_split, phrase, ifs_after, status } && phrase matches Some(pv) && ({ let sf = split_all(pv, ifs_after); let n = ' + L1 + '.len() - ' + N0 + ' - 1; '
     'n <= sf.len() && (forall|k: int| 0 <= k < n ==> (#[trigger] ' + L1 + '[' + N0 + ' + 1 + k] matches Ev::Globbed { chars, result } && chars == sf[k])) && (' + L1 + '.last() matches Ev::Globbed { chars, result } && result matches GlobResult::One(Err(_))) }))',
@@ -49,6 +52,7 @@ UNIT = {
             'r.will_split && r.last_command_subst_exit_status is None && *r.inner == *old(inner) && mut_ref_future(r.inner) == mut_ref_future(inner)']}),
         ('@raw', '}\n'),
         (EX, ['fn expand_word_multiple'], {'ret': 'r', 'rewrites': ['strip-async'],
+            'entry_ghost': 'let ghost verif_n0 = env.verif_log@.len() as int;',
             'attrs': ['#[verifier::loop_isolation(false)]'],
             'sig_token_rewrites': [('results : & mut R', 'results: &mut Vec<Field>'), ('< S , R >', '<S>'), ('R : Extend < Field > ,', '')],
             'token_rewrites': [
@@ -59,7 +63,7 @@ UNIT = {
                 ('results . extend ( std :: iter :: once ( field ) )', 'verif_extend_one(results, field)', '*'),
             ],
             'ensures': MULTI,
-            'ghost_before': [('Ok ( env . last_command_subst_exit_status )', 'proof { assert(verif_pv.take(verif_pv.len() as int) =~= verif_pv); }'),
+            'ghost_before': [('Ok ( env . last_command_subst_exit_status )', 'proof { assert(verif_pv.take(verif_pv.len() as int) =~= verif_pv); lemma_globbed_skip(env.inner.verif_log@, verif_n0, env.inner.verif_log@.len() - verif_n0 - 1); }'),
                 ('return Err ( Error {', 'proof { assert(verif_pv.take(verif_pv.len() as int) =~= verif_pv); }')],
             'loops': {
                 0: {'body_end': 'proof { assert(verif_pv.take(verif_it.index() + 1).drop_last() =~= verif_pv.take(verif_it.index() as int)); assert(verif_pv.take(verif_it.index() + 1).last() == chars@); }',
@@ -74,6 +78,7 @@ UNIT = {
                     'forall|k: int| 0 <= k < verif_l1.len() ==> #[trigger] env.inner.verif_log@[k] == verif_l1[k]',
                     'forall|k: int| 0 <= k < verif_it2.index() ==> (#[trigger] env.inner.verif_log@[verif_l1.len() + k] matches Ev::Globbed { chars, result } && chars == split_fields@[k].chars@ && !(result matches GlobResult::One(Err(_))))',
                     'results@ == old(results)@ + globbed(env.inner.verif_log@, verif_l1.len() as int, verif_it2.index() as int)',
+                    'forall|k: int| verif_l1.len() <= k < env.inner.verif_log@.len() ==> !(#[trigger] env.inner.verif_log@[k] is Expanded)',
                 ]},
             }}),
         (EX, ['fn expand_word_attr'], {'ret': 'r', 'rewrites': ['strip-async'],
@@ -94,6 +99,29 @@ UNIT = {
                 'mode is Single && r is Ok ==> (' + L1 + '[' + N0 + '] matches Ev::Expanded { word: w, will_split, phrase, ifs_after, status } && phrase matches Some(pv) && final(results)@ == old(results)@.push(Field { verif_id: unquoted(joined(pv, final(env).variables)) }) && r == Ok::<Option<ExitStatus>, Error>(status))',
                 'mode is Single && r is Err ==> final(results)@ == old(results)@',
             ] + ['mode is Multiple ==> (' + e + ')' for e in MULTI]}),
+        (EX, ['fn expand_words'], {'ret': 'r', 'rewrites': ['strip-async'],
+            'attrs': ['#[verifier::loop_isolation(false)]'],
+            'sig_token_rewrites': [("words : I", "words: &'a [Word]"), ("< 'a , S , I >", "<'a, S>"), ("I : IntoIterator < Item = & 'a Word > ,", '')],
+            'token_rewrites': [('for word in words', 'for word in verif_it: words')],
+            'ensures': [
+                'forall|k: int| 0 <= k < ' + N0 + ' ==> #[trigger] ' + L1 + '[k] == ' + L0 + '[k]',
+                # every word is expanded, once, in order - and the fields are exactly what the pathname expansions answered, in order
+                'r matches Ok(p) ==> expanded_words(' + L1 + ', ' + N0 + ', ' + L1 + '.len() - ' + N0 + ') =~= word_ids(words@) && p.0@ =~= globbed(' + L1 + ', ' + N0 + ', ' + L1 + '.len() - ' + N0 + ')',
+            ],
+            'loops': {0: {
+                'body_start': 'let ghost verif_lb = env.verif_log@; let ghost verif_fb = fields@;',
+                'body_end': 'proof { let n0 = old(env).verif_log@.len() as int; let a = verif_lb.len() - n0; let b = env.verif_log@.len() - verif_lb.len(); '
+                            'lemma_globbed_prefix(verif_lb, env.verif_log@, n0, a); lemma_globbed_split(env.verif_log@, n0, a, b); '
+                            'lemma_expanded_prefix(verif_lb, env.verif_log@, n0, a); lemma_expanded_split(env.verif_log@, n0, a, b); lemma_expanded_one(env.verif_log@, verif_lb.len() as int, b - 1, word.verif_id); '
+                            'assert(word_ids(words@).take(verif_it.index() + 1) =~= word_ids(words@).take(verif_it.index() as int).push(word.verif_id)); }',
+                'invariant': [
+                    'env.verif_log@.len() >= old(env).verif_log@.len()',
+                    'forall|k: int| 0 <= k < ' + N0 + ' ==> #[trigger] env.verif_log@[k] == ' + L0 + '[k]',
+                    'fields@ =~= globbed(env.verif_log@, ' + N0 + ', env.verif_log@.len() - ' + N0 + ')',
+                    'expanded_words(env.verif_log@, ' + N0 + ', env.verif_log@.len() - ' + N0 + ') =~= word_ids(words@).take(verif_it.index() as int)',
+                ]}},
+            'ghost_before': [('Ok ( ( fields , last_exit_status ) )', 'proof { assert(word_ids(words@).take(words@.len() as int) =~= word_ids(words@)); }')],
+            }),
         ('@raw', '}\n'),
     ],
 }
